@@ -672,6 +672,28 @@ class PendingAssign(PendingNode[Assign | AnnAssign]):
             return_list.extend(self.assign_auto(sub_target, value_subscript))
         return return_list
 
+    @staticmethod
+    def _evaluates_target_expr(target: expr) -> bool:
+        """
+        Whether an expression other than a name or a constant
+        is evaluated when assigning to this target
+        """
+
+        def _is_trivial(node: expr | None) -> bool:
+            if node is None or isinstance(node, (Name, Constant)):
+                return True
+            if isinstance(node, UnaryOp):
+                return _is_trivial(node.operand)
+            if isinstance(node, Slice):
+                return all(map(_is_trivial, (node.lower, node.upper, node.step)))
+            return False
+
+        if isinstance(target, Attribute):
+            return not _is_trivial(target.value)
+        if isinstance(target, Subscript):
+            return not (_is_trivial(target.value) and _is_trivial(target.slice))
+        return False
+
     def get_result(self) -> list[expr]:
         if self.node.value is None:
             return []
@@ -685,9 +707,11 @@ class PendingAssign(PendingNode[Assign | AnnAssign]):
         else:
             assign_targets = self.node.targets
 
-        if len(assign_targets) > 1:
+        if len(assign_targets) > 1 or self._evaluates_target_expr(assign_targets[0]):
             # chained assignment (a = b = value):
             # save the value to a tmp var to make sure the value expr only runs once.
+            # assignment to obj().attr or obj()[index()]:
+            # save the value to a tmp var to make sure the value expr runs first.
             tmp_value_name = Name(id=ol_name(OL_ASSIGN_TMP))
             return_list.append(NamedExpr(target=tmp_value_name, value=assign_value))
             assign_value = tmp_value_name
